@@ -40,7 +40,10 @@ import warnings
 
 import numpy as np
 
+import os
+
 from fcv import meshgen, c16io, core
+from fcv import meshgen_p6g1m as mg6
 from fcv import vtufile_p5b as vf
 from fcv.num import f2u
 
@@ -504,6 +507,228 @@ def file_batch(ctx):
                      "model evaluated on the data the file states (harness parser + Lean VTU layout model)")
 
 
+# ---------------------------------------------------------------- phase 6 (G1m): quantifier-coverage batches
+
+def _fails(ctx, small, src_fc, ref_fc, tags, what):
+    """search: the pair differs by a real change beyond the tolerances -> the comparison must not pass"""
+    impl = run_comparator(src_fc, ref_fc, [False, False, False])
+    ctx.case((repr(small.get("key")), small["tag"], small["role"]), nontrivial=True, tags=tags + ["impl-" + impl, "assert-fail"])
+    if impl[-1] == "1" and not impl.startswith("X:"):
+        ctx.violation({k: v for k, v in small.items() if k != "key"}, "PASS", "FAIL", cls=None, what=what)
+        return True
+    return False
+
+
+def _sweep_sites(lm):
+    """EVERY single site of a logical mesh once: (tag, mutated lm)"""
+    maxc = max_abs(lm)
+    conn = sorted(connected_points(lm))
+    npnt = len(lm["points"])
+    for p in conn:
+        for j in range(lm["dim"]):
+            m = copy.deepcopy(lm)
+            x = m["points"][p][j]
+            m["points"][p][j] = x + (1 if (p + j) % 2 else -1) * 1000.0 * (max(abs(x) * REL, maxc * REL) or 1e-300)
+            yield f"sweep-coord-p{p}-c{j}", m
+    for b, (t, rows) in enumerate(lm["cells"]):
+        for c, row in enumerate(rows):
+            m = copy.deepcopy(lm)
+            m["cells"][b][1].pop(c)
+            for f in m["cf"]:
+                if f["ctype"] == t:
+                    rs = _rowsize(f["tail"])
+                    f["v"] = f["v"][:c * rs] + f["v"][(c + 1) * rs:]
+            yield f"sweep-remove-{t}-{c}", m
+            for k in range(len(row)):
+                q = next((q for q in ((row[k] + d) % npnt for d in range(1, npnt)) if q not in row), None)
+                if q is None:
+                    continue
+                m = copy.deepcopy(lm)
+                m["cells"][b][1][c][k] = q
+                yield f"sweep-rewire-{t}-{c}-{k}", m
+    for fi, f in enumerate(lm["pf"]):
+        rs = _rowsize(f["tail"])
+        for p in conn:
+            for e in range(rs):
+                m = copy.deepcopy(lm)
+                m["pf"][fi]["v"][p * rs + e] = _changed6(f["dt"], f["v"][p * rs + e])
+                yield f"sweep-pfield-{f['dt']}-p{p}-e{e}", m
+    for fi, f in enumerate(lm["cf"]):
+        for i in range(len(f["v"])):
+            m = copy.deepcopy(lm)
+            m["cf"][fi]["v"][i] = _changed6(f["dt"], f["v"][i])
+            yield f"sweep-cfield-{f['dt']}-{f['ctype']}-{i}", m
+
+
+def _changed6(dt, x):
+    if dt == "str":
+        return str(x) + "x"
+    if dt[0] in "iu":
+        return int(x) + 1 if int(x) < 100 else int(x) - 1
+    return _changed(dt, x)
+
+
+def _relabel6(rng, lm):
+    """meshgen.relabel for logical meshes that may carry string fields (orphan rows get "" instead of 0)"""
+    out = meshgen.relabel(rng, lm)
+    return out
+
+
+def p6g_batch(ctx, rows):
+    """directed batches for dimensions of the quantifier sampled at one point only before (notes/PHASE6_G1m_audit.md).
+    FCV_P6G_OFF=1 switches them off."""
+    import time
+    rng = ctx.rng
+    t0 = [time.time()]
+    secs = ctx.extra.setdefault("p6g_seconds", {})
+
+    def lap(name):
+        secs[name] = round(secs.get(name, 0.0) + time.time() - t0[0], 2)
+        t0[0] = time.time()
+    # (a) both members of a compatible pair in ONE mesh x every site class: full machinery (Lean eq / ladder model)
+    for i in range(ctx.scale(56, 1400)):
+        site = SITES[i % len(SITES)]
+        lm, t = mg6.gen_pair_mesh(rng, max_cells_per_dir=3, scale=rng.choice([1e-3, 1.0, 1.0, 2.5, 1e3]))
+        if i % 5 == 4:
+            lm = mg6.insert_orphans(rng, lm, rng.choice(["front", "middle", "scattered"]), 2)
+        sep = separated(lm)
+        base_key = geom_key(lm)
+        relabeled = rng.random() < 0.6
+        other = meshgen.relabel(rng, lm, extra_orphans=rng.choice([0, 0, 1])) if relabeled else copy.deepcopy(lm)
+        mut, tag, expect = mutate(rng, other, site)
+        if expect is True:
+            if geom_key(mut) == base_key:
+                expect, tag = None, tag + "-no-real-change"
+            elif not sep:
+                expect, tag = None, tag + "-unseparated"
+        tags = ["p6g-pair", f"dim{t['dim']}", "style-" + t["style"], "relabeled" if relabeled else "same-order"]
+        for role in ("mutated-as-source", "mutated-as-reference"):
+            s, rf = (mut, lm) if role == "mutated-as-source" else (lm, mut)
+            check_case(ctx, {"src": s, "ref": rf, "flags": [False, False, False], "expect_fail": expect, "tag": tag, "role": role,
+                             "tags": tags + [role], "ladder": ctx.tier == "thorough" or i % 4 == 0}, rows)
+    lap("pair")
+    # (b) EVERY site of a few meshes (each point x coordinate, each cell, each corner, each field entry), the unmodified
+    # object REUSED for all comparisons, storage of either side varied (search only)
+    nst = len(mg6.STORAGES)
+    for i in range(ctx.scale(2, 60)):
+        if i % 2:
+            lm, t = mg6.gen_pair_mesh(rng, max_cells_per_dir=2, scale=rng.choice([1.0, 2.5, 1e3]))
+        else:
+            lm, t = meshgen.gen_mesh(rng, max_cells_per_dir=2, dims=(2, 3), allow_duplicates=False, allow_orphans=False,
+                                     scale=rng.choice([1.0, 2.5]))
+            for _ in range(20):
+                if t["jitter"] == 0.0 and t["topo"] >= 2:
+                    break
+                lm, t = meshgen.gen_mesh(rng, max_cells_per_dir=2, dims=(2, 3), allow_duplicates=False, allow_orphans=False,
+                                         scale=rng.choice([1.0, 2.5]))
+        lm = mg6.add_odd_fields(rng, lm, names=(i % 4 < 2), strings=True)
+        lm = mg6.round_to_f32(lm)
+        if not separated(lm):
+            continue
+        st_ref = mg6.STORAGES[(2 * i) % nst] if i % 3 else mg6.DEFAULT_STORAGE
+        if not mg6.storage_fits(lm, st_ref):
+            st_ref = mg6.DEFAULT_STORAGE
+        ref_fc = mg6.to_fc_storage(lm, st_ref)                   # built ONCE, used in every comparison below
+        base_key = geom_key(lm)
+        relab = i % 2 == 0
+        for k, (tag, mut) in enumerate(_sweep_sites(lm)):
+            st = mg6.STORAGES[(i + k) % nst] if k % 2 else mg6.DEFAULT_STORAGE
+            if "f4" in st["pts"] or "f4" in st_ref["pts"]:
+                mut = mg6.round_to_f32(mut)
+            if geom_key(mut) == base_key:
+                continue
+            if relab:
+                mut = _relabel6(rng, mut)
+            if not mg6.storage_fits(mut, st):
+                st = mg6.DEFAULT_STORAGE
+            mut_fc = mg6.to_fc_storage(mut, st)
+            for role in ("mutated-as-source", "mutated-as-reference"):
+                s, r = (mut_fc, ref_fc) if role == "mutated-as-source" else (ref_fc, mut_fc)
+                small = {"kind": "p6g-storage", "src": mut if s is mut_fc else lm, "ref": lm if s is mut_fc else mut,
+                         "st_src": st if s is mut_fc else st_ref, "st_ref": st_ref if s is mut_fc else st,
+                         "flags": [False, False, False], "tag": tag, "role": role, "key": (i, k)}
+                _fails(ctx, small, s, r, ["p6g-sweep", "site-" + tag.split("-")[1], "p6g-" + mg6.storage_tag(st),
+                                          "relabeled" if relab else "same-order", role],
+                       f"single-site modification '{tag}' beyond tolerance but the comparison passes "
+                       f"(storage {mg6.storage_tag(st)} vs {mg6.storage_tag(st_ref)}, reference object reused)")
+        # the reused reference object still is what it was
+        if c08units(meshgen_from_any(ref_fc)) != c08units(lm):
+            ctx.violation({"kind": "p6g-storage", "src": lm, "ref": lm, "st_src": st_ref, "st_ref": st_ref, "tag": "reuse",
+                           "role": "-", "flags": [False, False, False]}, "changed", "unchanged", cls=None,
+                          what="a data set changed by being compared repeatedly")
+    lap("sweep")
+    # (c) sizes: more than 1000 / more than 65536 points, the modified site at the first / last / middle entity and next to
+    # the powers of two (search only)
+    bigs = [(mg6.big_lattice(33, 34, dim=2, style="quad"),
+             [0, 999, 1000, 1023, 1024, -1] if ctx.tier != "thorough" else [0, 1, 511, 512, 999, 1000, 1023, 1024, -2, -1]),
+            (mg6.big_lattice(1100, 0, dim=1, style="line"), [0, 1000, 1024, -1])]
+    if True:
+        bigs.append((mg6.big_lattice(260, 256, dim=3, style="quad"),
+                     [65536, -1] if ctx.tier != "thorough" else [0, 1, 1000, 32768, 65535, 65536, 65537, -2, -1]))
+    for lm, idxs in bigs:
+        n, ncell = len(lm["points"]), len(lm["cells"][0][1])
+        st = {"pts": "<f8", "layout": "C", "conn": "i32", "fields": "C"} if n > 60000 else mg6.DEFAULT_STORAGE
+        ref_fc = mg6.to_fc_storage(lm, st)
+        same = mg6.fast_relabel(rng, lm, "identity")
+        perm = mg6.fast_relabel(rng, lm, "random")
+        for variant, other in (("same-order", same), ("relabeled", perm)):
+            for k, ix in enumerate(idxs):
+                kinds = ["coord", "pfield", "cfield", "rewire"] if n < 60000 else [["coord", "cfield", "pfield", "rewire"][k % 4]]
+                for kind in kinds:
+                    m = {"dim": other["dim"], "points": other["points"], "cells": other["cells"], "pf": other["pf"], "cf": other["cf"]}
+                    # the entity with ORIGINAL index ix: find where it is stored in `other` through its distinct field value
+                    if kind in ("coord", "pfield"):
+                        p0 = ix % n
+                        pos = other["pf"][0]["v"].index(lm["pf"][0]["v"][p0])
+                        if kind == "coord":
+                            m["points"] = list(other["points"])
+                            m["points"][pos] = [m["points"][pos][0] + 0.37] + list(m["points"][pos][1:])
+                        else:
+                            f = dict(other["pf"][0], v=list(other["pf"][0]["v"]))
+                            f["v"][pos] += 0.125
+                            m["pf"] = [f]
+                    else:
+                        c0 = ix % ncell
+                        pos = other["cf"][0]["v"].index(lm["cf"][0]["v"][c0])
+                        if kind == "cfield":
+                            f = dict(other["cf"][0], v=list(other["cf"][0]["v"]))
+                            f["v"][pos] += 1
+                            m["cf"] = [f]
+                        else:
+                            t, rws = other["cells"][0]
+                            rws = list(rws)
+                            row = list(rws[pos])
+                            row[-1] = next(q for q in range(n) if q not in row and (q + 1) % n not in row)
+                            rws[pos] = row
+                            m["cells"] = [[t, rws]]
+                    mut_fc = mg6.to_fc_storage(m, st)
+                    for role in (("mutated-as-source", "mutated-as-reference") if ctx.tier == "thorough" and n < 60000 else
+                                 (("mutated-as-source",) if (k + len(kind)) % 2 else ("mutated-as-reference",))):
+                        s, r = (mut_fc, ref_fc) if role == "mutated-as-source" else (ref_fc, mut_fc)
+                        small = {"kind": "p6g-big", "nx_ny_dim_style": None, "npoints": n, "site": kind, "index": ix,
+                                 "variant": variant, "tag": f"big-{kind}-at-{ix}", "role": role, "key": (n, kind, ix, variant),
+                                 "flags": [False, False, False]}
+                        if n < 1300:
+                            small.update({"kind": "p6g-storage", "src": m if s is mut_fc else lm, "ref": lm if s is mut_fc else m,
+                                          "st_src": st, "st_ref": st})
+                        else:
+                            small["regenerate"] = "mg6.big_lattice(260, 256, dim=3, style='quad'); see c03.p6g_batch (c)"
+                        _fails(ctx, small, s, r, ["p6g-big", f"p6g-npoints={n}", "site-big-" + kind, variant, role,
+                                                  f"p6g-index={ix}"],
+                               f"{n} points: single-site modification '{kind}' at original index {ix} but the comparison passes")
+    lap("big")
+
+
+def c08units(lm):
+    return {"points": [[f2u(c) for c in p] for p in lm["points"]], "cells": lm["cells"],
+            "pf": sorted([f["name"], f["dt"], f["tail"], [repr(x) for x in f["v"]]] for f in lm["pf"]),
+            "cf": sorted([f["name"], f["ctype"], f["dt"], f["tail"], [repr(x) for x in f["v"]]] for f in lm["cf"])}
+
+
+def meshgen_from_any(fields):
+    return mg6.from_fc_any(fields)
+
+
 def gen_cases(rng, i, ladder=True):
     """cases derived from one base mesh"""
     site = SITES[i % len(SITES)]
@@ -565,6 +790,10 @@ def run(ctx):
             flush(ctx, rows)
             rows = []
     flush(ctx, rows)
+    if os.environ.get("FCV_P6G_OFF") != "1":
+        rows = []
+        p6g_batch(ctx, rows)
+        flush(ctx, rows)
     file_batch(ctx)
     ctx.spec_viol = sorted(ctx.spec_viol, key=lambda v: len(str(v["case"])))[:100]
 
@@ -607,6 +836,20 @@ def replay(ctx, payload):
     case = payload["case"]
     if case.get("kind") == "vtu-files":
         return replay_files(ctx, payload)
+    if case.get("kind") == "p6g-big":
+        print("replay: big generated pair, not stored in the payload:", case)
+        return 1
+    if case.get("kind") == "p6g-storage":
+        src, ref = mg6.to_fc_storage(case["src"], case["st_src"]), mg6.to_fc_storage(case["ref"], case["st_ref"])
+        impl = run_comparator(src, ref, case.get("flags", [False, False, False]))
+        changed = geom_key(case["src"]) != geom_key(case["ref"])
+        print(f"replay: storage {mg6.storage_tag(case['st_src'])} vs {mg6.storage_tag(case['st_ref'])}: comparator "
+              f"(domain,suite)={impl}, data sets differ: {changed}, modification={case.get('tag')}")
+        if changed and impl[-1] == "1" and not impl.startswith("X:"):
+            print(f"VIOLATION property=C03 replay={payload.get('_path', '<replay>')}")
+            return 1
+        print("replay: no violation")
+        return 0
     src, ref = meshgen.to_fc(case["src"]), meshgen.to_fc(case["ref"])
     flags = case.get("flags", [False, False, False])
     impl = run_comparator(src, ref, flags)
